@@ -366,6 +366,34 @@ func run() int {
 	}
 	close(work)
 	wg.Wait()
+	// cover checks that the solvers could not decide because of quantified assumptions are retried on the
+	// quantifier-free part of the assumptions (a contradiction among plain requires/typing facts is still found)
+	for _, res := range results {
+		if res.O.Expect != "sat" || res.Status != "failed" || res.Res.Status == "unsat" || res.O.Err != "" {
+			continue
+		}
+		var asserts []*smt.Term
+		dropped := 0
+		for _, f := range res.O.Facts {
+			if smt.HasQuantifier(f) {
+				dropped++
+				continue
+			}
+			asserts = append(asserts, f)
+		}
+		if dropped == 0 {
+			continue
+		}
+		asserts = append(asserts, res.O.Goal)
+		sc := eng.C.Print(asserts, nil, smt.PrintOpts{})
+		rr := solve.Race(tmp, "cover_qf_"+sanitize(res.O.Name), sc.Text, timeout, false, false)
+		if rr.Status == "sat" {
+			res.Status = "discharged"
+			res.Solver = rr.By
+			res.Time += rr.Time
+			res.Reason = fmt.Sprintf("sat on the quantifier-free assumptions (%d quantified facts left out)", dropped)
+		}
+	}
 	solveS := time.Since(tSolve).Seconds()
 
 	// classify
